@@ -98,7 +98,13 @@ def run(prop, tier):
     seed = vc.seed()
     b = BUDGET[(prop, tier)]
     exe = build_b.build_simB(False)
-    exe_san = build_b.build_simB(True)
+    try:
+        exe_san = build_b.build_simB(True)
+    except build.HarnessError as e:
+        # the sanitizer runtime is linked into that executable and uses a few libc entry points itself, which therefore
+        # cannot be simulated there; code that imports one of them is decided by the plain build alone
+        print("NOTE sanitized build skipped: %s" % str(e).splitlines()[0])
+        exe_san = None
     work = tempfile.mkdtemp(prefix="simB-%s-" % prop, dir=build.BUILD)
     os.makedirs(vc.REPLAYS, exist_ok=True)
     try:
@@ -112,6 +118,8 @@ def run(prop, tier):
             try:
                 san = json.load(open(rp)).get("build") == "sanitized"
             except Exception:
+                continue
+            if san and not exe_san:
                 continue
             r = subprocess.run([exe_san if san else exe, "replay", rp] + common[:8], stdout=subprocess.PIPE, text=True)
             if r.returncode == 0 and "known: " in r.stdout:
@@ -137,14 +145,15 @@ def run(prop, tier):
         nplain = max(1, NCPU - nsan)
         det = min(b["det"], b["search"])
         add("search", exe, ["--hashes", "@OUT@.idx", "--hashes-below", str(det)], b["search"], nplain, seed)
-        add("san", exe_san, [], b["san"], nsan, seed + 104729)
+        if exe_san:
+            add("san", exe_san, [], b["san"], nsan, seed + 104729)
         res_a = run_jobs(jobs)
         jobs2 = []
         jobs_bak = jobs
         jobs = jobs2
         for sp in b.get("spaces", []):
             add("space-" + sp, exe, ["--space", sp], spaces[sp], NCPU, seed)
-        for sp in b.get("san_spaces", []):
+        for sp in (b.get("san_spaces", []) if exe_san else []):
             add("sanspace-" + sp, exe_san, ["--space", sp], spaces[sp], NCPU, seed)
         # determinism gate: the first `det` search indices again at another worker count
         gate = []
